@@ -249,6 +249,49 @@ def rule_quote(ctx):
     return rr
 
 
+def rule_refs(ctx):
+    rr = RuleResult('C09', 'C09.refs', 'SIB',
+                    'both load paths pre-evaluate defined names on the nodes '
+                    'their references added', floor=2)
+    p = ctx.project
+    for q in ('ExcelModel.add_references', 'ExcelModel.from_dict'):
+        f = p.func(EXCEL, q)
+        rr.instances += 1
+        calls = [n for n in own_nodes(f) if isinstance(n, ast.Call)
+                 and call_name(n) == '_update_refs']
+        if not calls:
+            rr.fail(key_of(f, 'no reference pre-evaluation'),
+                    '%s no longer calls _update_refs: defined names are not '
+                    'resolved to ranges on this load path' % q, file=EXCEL,
+                    function=q, line=f.lineno)
+            continue
+        c = calls[0]
+        first = c.args[0] if c.args else None
+        ok = False
+        if isinstance(first, ast.Name):
+            # the set must be fed with the results of <ref>.add(self.dsp, ...)
+            for n in own_nodes(f):
+                if isinstance(n, ast.Call) and call_name(n) == 'update' and \
+                        norm_src(n.func.value) == first.id and n.args and any(
+                        isinstance(x, ast.Call) and call_name(x) == 'add' and
+                        x.args and norm_src(x.args[0]).endswith('.dsp')
+                        for x in ast.walk(n.args[0])):
+                    ok = True
+        if ok:
+            rr.ok('%s: _update_refs runs on the nodes returned by the '
+                  'references\' add()' % q, '%s:%d' % (EXCEL, c.lineno))
+        else:
+            rr.fail(key_of(f, 'reference pre-evaluation on the wrong nodes'),
+                    '%s calls _update_refs(%s, ...): the first argument is not '
+                    'the set of nodes returned by each reference\'s add(), so '
+                    'the sub-model evaluated lacks the reference functions and '
+                    'no defined name is resolved to its range (the other load '
+                    'path does)' % (q, norm_src(first) if first is not None
+                                    else ''), file=EXCEL, function=q,
+                    line=c.lineno)
+    return rr
+
+
 def _retag(r, prop, rule):
     r.prop, r.rule = prop, rule
     for f in r.findings:
@@ -261,7 +304,7 @@ def _retag(r, prop, rule):
 def run(ctx):
     from .c01 import rule_render
     from .c04 import rule_quote as c04_quote
-    rs = [rule_tags(ctx), rule_quote(ctx),
+    rs = [rule_tags(ctx), rule_quote(ctx), rule_refs(ctx),
           _retag(rule_render(ctx), 'C09', 'C09.render'),
           _retag(c04_quote(ctx), 'C09', 'C09.ids')]
     return rs
